@@ -144,8 +144,9 @@ let replace_all (a : string) (b : string) (s : string) : string = Str.global_rep
 
 let predict_hook (f : string list) (obs : string) : string * string * bool =
   let go cfg def req ub k ua =
-      let sh = { sh_ret = RPlugin; sh_cfg = (if cfg = "S" then CStruct else CPtr); sh_cerr = true; sh_perr = false;
+      let sh0 = { sh_ret = RPlugin; sh_cfg = (if cfg = "S" then CStruct else CPtr); sh_cerr = true; sh_perr = false;
                  sh_def = (if def = "-" then DefNone else DefVal); sh_rt = TImpl; sh_named = false } in
+      let sh = sh0 in
       (* what the user code does: default V gives a = 100+n, W gives a = 5000+n (violating the
          validate tag max=1000); the decoder overlays the keys of the section and then validates *)
       let overlay seen = { va = (if ua = "-" then seen.va else n_of_string ua);
@@ -156,7 +157,7 @@ let predict_hook (f : string list) (obs : string) : string * string * bool =
       let o = { o_dflt = dflt; o_fill = (fun _ seen -> overlay seen); o_ffail = (fun _ -> invalid);
                 o_cfail = (fun _ -> false); o_pfail = (fun _ -> false) } in
       let kk = int_of_string k in
-      let cs = { cs_shape = sh; cs_req = (if req = "N" then ReqNew else ReqFactory (true, false)); cs_hf = true; cs_k = nat_of_int kk } in
+      let cs = { cs_shape = sh; cs_req = (if req = "N" then ReqNew else ReqFactory (req <> "F0", false)); cs_hf = true; cs_k = nat_of_int kk } in
       let nofill = List.filter (function EvFill _ -> false | _ -> true) in
       let strip = List.map (fun (e, out) -> (nofill e, out)) in
       let pred = s_obs (canon_obs (match run_case cs o with
@@ -207,6 +208,119 @@ let predict_hook (f : string list) (obs : string) : string * string * bool =
   match f with
   | ["hook"; cfg; def; req; ub; k] -> go cfg def req ub k "-"
   | ["hook"; cfg; def; req; ub; k; ua] -> go cfg def req ub k ua
+  | _ -> ("unknown-case", "BAD:unknown-case", false)
+
+(* kind cases: a constructor registered through the helper of its kind in core/register *)
+let kind_index = function
+  | "provider" -> Some 0 | "limiter" -> Some 1 | "gun" -> Some 2 | "aggregator" -> Some 3
+  | "datasource" -> Some 4 | "datasink" -> Some 5 | _ -> None
+
+let predict_kind (f : string list) (obs : string) : string * string * bool =
+  match f with
+  | ["kind"; kind; cfg; def; req; ub; k; ua] ->
+      (match kind_index kind with
+       | Some _ ->
+           (* the helpers hand every argument on unchanged (C18_register_helpers; the bridge
+              Gen/RegisterHelpers_bridge.v ties the table to register.go): the registry sees the
+              shape the user registered *)
+           let obs' = replace_all "panic:config" "err:config" obs in
+           predict_hook ["hook"; cfg; def; req; ub; k; ua] obs'
+       | None -> ("unknown-case", "BAD:unknown-case", false))
+  | _ -> ("unknown-case", "BAD:unknown-case", false)
+
+(* conc cases: products created concurrently.  The model (Model/RegistryConc.v) is run on a
+   schedule that replays the order of default invocations read off the observation (every other
+   step order gives the same products: C18_concurrent_products); the verdict is conc_b on the
+   implementation's records.  The function-valued state of the model (threads, heap) is kept in
+   arrays between steps and handed to the model as lookup functions (extensionally the same state). *)
+let run_memo (sh : shape) (o : oracle) (d : nat -> tdesc) (total : int) (sched : nat list) : nat -> cthread =
+  let tarr = Array.make (total + 1) thread0 in
+  let harr = Array.make (total + 2) vzero in
+  let tf = fun x -> let i = int_of_nat x in if i < Array.length tarr then tarr.(i) else thread0 in
+  let hf = fun x -> let i = int_of_nat x in if i < Array.length harr then harr.(i) else vzero in
+  let g = ref { cs_alloc = O; cs_def = O; cs_heap = hf } in
+  List.iter (fun t ->
+    let ti = int_of_nat t in
+    if ti < Array.length tarr then begin
+      let a0 = int_of_nat (!g).cs_alloc in
+      let r0 = int_of_nat (tarr.(ti)).ct_res in
+      let (g1, t1) = run_sched sh o d [t] !g tf in
+      let nt = t1 t in
+      let ha = g1.cs_heap (nat_of_int a0) in
+      let hr = g1.cs_heap (nat_of_int r0) in
+      tarr.(ti) <- nt;
+      if a0 < Array.length harr then harr.(a0) <- ha;
+      if r0 < Array.length harr && r0 <> a0 then harr.(r0) <- hr;
+      g := { cs_alloc = g1.cs_alloc; cs_def = g1.cs_def; cs_heap = hf }
+    end) sched;
+  tf
+
+let predict_conc (f : string list) (obs : string) : string * string * bool =
+  match f with
+  | ["conc"; via; mode; cfg; def; gs; ks; own] ->
+      let gg = int_of_string gs and kk = int_of_string ks in
+      let np = gg * kk in
+      let ntrial = (if mode = "F" then (if own = "1" then gg else 1) else 0) in
+      let total = np + ntrial in
+      let has_def = (def <> "-") in
+      let sh = { sh_ret = RPlugin; sh_cfg = (if cfg = "S" then CStruct else CPtr); sh_cerr = true; sh_perr = false;
+                 sh_def = (if has_def then DefVal else DefNone); sh_rt = TIface; sh_named = false } in
+      let o = oracle_of [] [] [] in
+      let user_b gi = if own = "1" then 1000 + gi else 7 in
+      (* thread t < np is product (t / kk, t mod kk); the others are the trial configs of factory creations *)
+      let goroutine t = if t < np then t / kk else (if own = "1" then t - np else 0) in
+      let d (t : nat) : tdesc =
+        let ti = int_of_nat t in
+        { td_fill = (fun v -> { va = v.va; vb = n_of_int (user_b (goroutine ti)); vc = (if via = "r" then n_of_int 1 else v.vc) });
+          td_trial = (ti >= np) } in
+      let toks = (match String.split_on_char ' ' obs with "conc" :: r -> List.filter (fun x -> x <> "") r | _ -> []) in
+      (* a record: a,b,c or a,b,c#id *)
+      let p_rec (s : string) : (cfgv * int option) option =
+        match String.split_on_char '#' s with
+        | [v] -> (try Some (p_v v, None) with _ -> None)
+        | [v; i] -> (try Some (p_v v, Some (int_of_string i)) with _ -> None)
+        | _ -> None in
+      let recs = List.mapi (fun t s -> (t, p_rec s)) toks in
+      let n_of_rec v = int_of_n v.va - 100 in
+      (* order of the default invocations: product threads by the default value they got, the
+         trial configs take the invocations no product shows *)
+      let order =
+        if not has_def then List.init total (fun t -> t)
+        else begin
+          let slot = Array.make total (-1) in
+          List.iter (fun (t, r) -> match r with
+            | Some (v, _) -> let n = n_of_rec v in if n >= 0 && n < total && slot.(n) < 0 && t < np then slot.(n) <- t
+            | None -> ()) recs;
+          let used = Array.make total false in
+          Array.iter (fun t -> if t >= 0 then used.(t) <- true) slot;
+          let free = ref (List.filter (fun t -> t >= np) (List.init total (fun t -> t))) in
+          let ord = ref [] in
+          Array.iter (fun t ->
+            if t >= 0 then ord := t :: !ord
+            else (match !free with x :: r -> free := r; used.(x) <- true; ord := x :: !ord | [] -> ())) slot;
+          let rest = List.filter (fun t -> not used.(t)) (List.init total (fun t -> t)) in
+          List.rev !ord @ rest
+        end in
+      let tf = run_memo sh o d total (sched_of_order (List.map nat_of_int order)) in
+      let model_recs = observe_conc d (nat_of_int total) tf in
+      let ids = Hashtbl.create 64 in
+      let canon i = (match Hashtbl.find_opt ids i with Some v -> v | None -> let v = Hashtbl.length ids in Hashtbl.add ids i v; v) in
+      let s_rec (r : crec) = match r.cr_arg with
+        | AVal v -> s_v v
+        | AConf c -> Printf.sprintf "%s#%d" (s_v c.c_val) (canon (int_of_nat c.c_id))
+        | _ -> "X" in
+      let pred = String.concat " " ("conc" :: List.map s_rec model_recs) in
+      let complete = List.length recs = np && List.for_all (fun (_, r) -> r <> None) recs in
+      let obs_recs = List.filter_map (fun (t, r) -> match r with
+        | Some (v, id) ->
+            let arg = (match id with Some i -> AConf { c_id = nat_of_int i; c_val = v } | None -> AVal v) in
+            let dn = (if has_def then Some (nat_of_int (let n = n_of_rec v in if n >= 0 then n else 1000000 + t)) else None) in
+            Some { cr_tid = nat_of_int t; cr_def = dn; cr_arg = arg }
+        | None -> None) recs in
+      let v =
+        if not complete then "BAD:a concurrent creation failed or yielded no product"
+        else verdict (conc_b sh o d obs_recs) "concurrent products: a product was not built from its own default overlaid by its own settings (or shares a default value / a config with another product)" in
+      (pred, v, gg > 1)
   | _ -> ("unknown-case", "BAD:unknown-case", false)
 
 (* hookn cases: a plugin whose config holds a nested plugin, decoded by the real hooks. *)
@@ -361,6 +475,8 @@ let predict (c : string) (obs : string) : string * string * bool =
   if String.length c > 5 && String.sub c 0 5 = "nest " then predict_nest (split_blank c) obs else
   if String.length c > 5 && String.sub c 0 5 = "hook " then predict_hook (split_blank c) obs else
   if String.length c > 6 && String.sub c 0 6 = "hookn " then predict_hookn (split_blank c) obs else
+  if String.length c > 5 && String.sub c 0 5 = "kind " then predict_kind (split_blank c) obs else
+  if String.length c > 5 && String.sub c 0 5 = "conc " then predict_conc (split_blank c) obs else
   let (cs, o) = case_of (split_blank c) in
   let pred = s_obs (canon_obs (run_case cs o)) in
   let v =
